@@ -9,6 +9,7 @@ def concretise(chars, pattern="default", variant="A"):
     text = []
     back = {}
     part = 0
+    samelines = back.setdefault("__lines__", [])
     for ch in chars:
         if ch == "\n":
             text.append("\n")
@@ -23,10 +24,21 @@ def concretise(chars, pattern="default", variant="A"):
             back[t] = "F"
             continue
         else:
-            t = {"A": "print(undef_%s)", "B": "v%s = = 1", "C": "def f%s(): return undef_%s"}[variant].replace("%s", ch)
+            t = {"A": "print(undef_%s)", "B": "v%s = = 1", "C": "def f%s(): return undef_%s", "D": "print(undef_same)"}[variant].replace("%s", ch)
             text.append(t)
             back[t] = ch
+            if variant == "D":
+                # every code line has the SAME text (two sections can then be equal as texts); lines are told apart
+                # by position only
+                back[t] = "same"
+                samelines.append(int(ch))
     return "".join(text), back
+
+
+def want_same_lines(file_tokens, exp):
+    """Original-file lines of the code lines the specification says are presented now (variant D)."""
+    main = [t for t in exp["main_numbered"] if t not in ("\n", "M", "F")]
+    return {int(t) for t in main}
 
 
 def tokens(code, back):
@@ -79,6 +91,8 @@ def replay_one(rec, pattern, variant):
                 "idx": src_data["section"]}
         # the offset only matters to C17 while a section is presented; what it is once the whole file is back is
         # C12's business (verify() after stop_sections must report CPython's line), checked there
+        if variant == "D":      # code lines are indistinguishable as texts
+            exp = dict(exp, main=[t if t in ("\n", "M", "F") else "same" for t in exp["main"]], main_numbered=exp["main"])
         bad = [k for k in proj if proj[k] != exp[k] and not (k == "offset" and (not independent or a in ("stop", "resolve") or exp["pastEnd"]))]
         # ---- tools that report line numbers while the section is presented
         diags = []
@@ -119,6 +133,15 @@ def replay_one(rec, pattern, variant):
                                     proj.setdefault("wrong_lines", []).append({"tool": tool + "-earlier-section", "tok": tok, "reported": line, "expected": int(tok)})
                 if SB.get_exception(report=R) is not None or True:
                     earlier.extend(t for t in toks if t not in earlier)
+            if ok and variant == "D":
+                # sections with identical text: each one's TIFA issues carry ITS lines of the original file
+                res = tifa_analysis(report=R)
+                got_lines = sorted({issue.location.line for label in ("initialization_problem", "possible_initialization_problem")
+                                    for issue in res.issues.get(label, []) if issue.fields.get("name") == "undef_same"})
+                want_lines = want_same_lines(rec["file"], exp)
+                if want_lines and (not got_lines or any(g not in want_lines for g in got_lines)):
+                    bad.append("line:tifa-identical-sections")
+                    proj.setdefault("wrong_lines", []).append({"tool": "tifa-identical-sections", "reported": got_lines, "expected_among": sorted(want_lines)})
             if ok and variant == "A":
                 res = tifa_analysis(report=R)
                 for label in ("initialization_problem", "possible_initialization_problem"):
@@ -150,7 +173,7 @@ def replay_one(rec, pattern, variant):
                 if want.get((tool, tok)) != line:
                     bad.append("line:%s" % tool)
                     proj.setdefault("wrong_lines", []).append({"tool": tool, "tok": tok, "reported": line, "expected": want.get((tool, tok))})
-            expected_tools = {"B": {"syntax"}, "A": {"tifa", "runtime", "traceback"}, "C": {"runtime", "traceback"}}[variant]
+            expected_tools = {"B": {"syntax"}, "A": {"tifa", "runtime", "traceback"}, "C": {"runtime", "traceback"}, "D": set()}[variant]
             if exp["diags"] and not expected_tools <= got_tools:
                 bad.append("missing-diagnostic:%s" % sorted(expected_tools - got_tools))
         if bad:
@@ -171,6 +194,6 @@ def replay_chunk(cases, extra):
     out = []
     for idx, rec in cases:
         for pattern in extra["patterns"]:
-            for variant in ("A", "B", "C"):
+            for variant in ("A", "B", "C", "D"):
                 out.extend(replay_one(rec, pattern, variant))
     return out
